@@ -22,6 +22,8 @@ PAIRS_Q = [["bbA", "a_c"], ["a_c", "edge_only"], ["bbA", "rm"], ["pat", "circ"],
 def cases(tier):
     variants = [v for v in gp_cases.ff_variants(tier) if len(v["links"]) <= 1]
     variants += [dict(links=p) for p in PAIRS_Q]
+    # a residue that a link leaves without atoms: its residue-graph edges are reported, not skipped
+    variants += [dict(links=["rm_all"]), dict(links=["bb", "rm_all"])]
     if tier == "thorough":
         variants = gp_cases.ff_variants("quick")
     for variant in variants:
